@@ -94,7 +94,9 @@ def eval_ref(node):
     """-> (canonical dict, norm bound of operands chain, allowance for dropped tiny terms)"""
     if "op" not in node:
         c = pgen.canon_operand(node)
-        return c, max(pgen.canon_norm(c), 1e-300), 0.0
+        # like terms of an operand may cancel to a residue below the library's 1e-8 zero tolerance, which simplify drops
+        tiny = sum(1 for v in c.values() if 0 < abs(v) <= 2e-8)
+        return c, max(pgen.canon_norm(c), 1e-300), 1e-8 * tiny
     a, na, ea = eval_ref(node["a"])
     op = node["op"]
     if op == "/":
